@@ -460,6 +460,12 @@ func runC16(w *W) {
 			}
 		}
 		text := strings.Join(parts, ";")
+		if k%5 == 4 {
+			// PARALLEL WITH chains: one statement built from several, with statement-like boundaries inside it
+			chain := []string{"SELECT 1 PARALLEL WITH SELECT 2 PARALLEL WITH SELECT 3", "SELECT a FROM t PARALLEL WITH SELECT b FROM u", "CREATE TABLE a (x UInt8) ENGINE = Memory PARALLEL WITH CREATE TABLE b (y UInt8) ENGINE = Memory PARALLEL WITH SELECT 1"}
+			parts[at] = pick(r, chain)
+			text = strings.Join(parts, ";")
+		}
 		in := []byte(text)
 		w.Begin(idx, in, "broken-script")
 		w.Eval(in, true)
